@@ -108,6 +108,28 @@ func (f *faultInjector) snapshotRHT() {
 	}
 }
 
+// hideRHT makes every statement that touches a node table fail ("no such table") by renaming the tables from the second
+// connection; unhideRHT renames them back. This is the read fault of the plan: rebuilding the tree's frontier cache reads
+// the node table, and triggers cannot fail a SELECT.
+func (f *faultInjector) hideRHT() int {
+	n := 0
+	for _, t := range f.tables {
+		if strings.HasSuffix(t, "rht") {
+			f.exec("ALTER TABLE " + t + " RENAME TO vf_hidden_" + t)
+			n++
+		}
+	}
+	return n
+}
+
+func (f *faultInjector) unhideRHT() {
+	for _, t := range f.tables {
+		if strings.HasSuffix(t, "rht") {
+			f.exec("ALTER TABLE vf_hidden_" + t + " RENAME TO " + t)
+		}
+	}
+}
+
 func (f *faultInjector) restoreRHT() {
 	for _, t := range f.tables {
 		if strings.HasSuffix(t, "rht") {
@@ -213,6 +235,36 @@ func c07Prop(rt *rapid.T, rec *ev.Recorder) {
 		}
 	}
 
+	// nodeTableFault: the node tables are unreadable and unwritable during one attempt (after a restart, so that the
+	// attempt has to rebuild the frontier cache from them); returns false when the block went in regardless (no tree leaf)
+	nodeTableFault := func(label string) bool {
+		if err := S.restart(); err != nil {
+			fatal(rt, "restart: %v", err)
+		}
+		pre := dumpTables(pathS, faultTables)
+		if inj.hideRHT() == 0 {
+			return true
+		}
+		err := S.process(tb)
+		inj.unhideRHT()
+		if err == nil {
+			// a VerifyBatches event only writes tree nodes when it changes the rollup's exit root
+			sure := false
+			for _, e := range tb.Evs {
+				sure = sure || e.Bridge != nil || e.Info != nil
+			}
+			if sure {
+				fatal(rt, "[%s] %s: ProcessBlock(%s) succeeded although the tree node tables could not be read or written", k, label, tb.brief())
+			}
+			return false
+		}
+		if d := diffDumps(pre, dumpTables(pathS, faultTables)); d != "" {
+			fatal(rt, "[%s] %s: after a failed ProcessBlock(%s) (node tables unavailable: %v) part of the block is visible:\n%s", k, label, tb.brief(), err, d)
+		}
+		rec.Class("fault_node_tables_unavailable")
+		return true
+	}
+
 	inj.snapshotRHT()
 	undo := func() {
 		if err := S.reorg(tb.Num); err != nil {
@@ -239,13 +291,27 @@ func c07Prop(rt *rapid.T, rec *ev.Recorder) {
 			rec.Case(nt, fmt.Sprintf("%sK%d", key, kth))
 			nontrivialAny = nontrivialAny || nt
 		}
+		if leaves > 0 {
+			label := "node tables unavailable after a restart"
+			if nodeTableFault(label) {
+				retryAndCheck(label)
+			}
+			undo()
+		}
 		rec.Class("enumerated_histories")
 		rec.ClassN("enumerated_faults", total)
 	} else {
 		// a sequence of 1-3 faults (storage statement, cancelled context, cancellation racing the call), then retry
 		nf := rapid.IntRange(1, 3).Draw(rt, "nFaults")
 		for i := 0; i < nf && !completed; i++ {
-			switch rapid.IntRange(0, 3).Draw(rt, "faultKind") {
+			switch rapid.IntRange(0, 4).Draw(rt, "faultKind") {
+			case 4:
+				if leaves > 0 {
+					if !nodeTableFault(fmt.Sprintf("fault %d of %d in sequence, node tables unavailable", i+1, nf)) {
+						completed = true
+					}
+					key += "N,"
+				}
 			case 0:
 				ctx, cancel := context.WithCancel(bg)
 				cancel()
